@@ -3,6 +3,7 @@ NEXT NNext
 CONSTANTS
   Mode = "pairs"
   Depth = 1
+  NFixed = {}
   NBug = "eq_bool_no_typecheck"
   NVSpace = "tiny"
   NCompoundV = "none"
